@@ -66,14 +66,33 @@ impl<'a, T: Component> Pick<'a> for RdM<T> {
 impl<'a, T: Component + Default> Pick<'a> for WrM<T> {
     type Data = WriteStorage<'a, T>;
     fn touch(d: &mut Self::Data) -> u32 {
+        // components for entities other systems have just created (and possibly asked to delete): whatever `insert`
+        // answers, it must not panic
+        let hs: Vec<Entity> = { let h = HANDLES.lock().unwrap(); h.iter().rev().take(4).cloned().collect() };
+        for e in hs { let _ = d.insert(e, T::default()); }
         let mut n = 0;
         for _c in (&mut *d).join() { n += 1; }
         n
     }
 }
+/// Handles published by the systems that hold `Entities` (created in this dispatch, some of them with a deletion already
+/// requested); the systems that hold a `WriteStorage` insert components for them.
+static HANDLES: std::sync::Mutex<Vec<Entity>> = std::sync::Mutex::new(Vec::new());
+
 impl<'a> Pick<'a> for EntM {
     type Data = Entities<'a>;
-    fn touch(d: &mut Self::Data) -> u32 { d.join().count() as u32 }
+    // systems that hold the entity resource really use it: atomic creations (fresh indices), a deferred deletion, and
+    // the sequential and the parallel join over the entities — all of which other systems of the same dispatch may be
+    // doing at the same time
+    fn touch(d: &mut Self::Data) -> u32 {
+        let a = d.create();
+        let b = d.create();
+        let _ = d.delete(b);
+        { let mut h = HANDLES.lock().unwrap(); h.push(a); h.push(b); if h.len() > 64 { h.drain(..32); } }
+        let n = d.join().count();
+        let m = (&**d).par_join().count();
+        (n + m) as u32
+    }
 }
 impl<'a> Pick<'a> for LazyM {
     type Data = Read<'a, LazyUpdate>;
@@ -278,6 +297,7 @@ fn decl_of(spec: &SysSpec) -> String {
 }
 
 fn new_world() -> World {
+    HANDLES.lock().unwrap().clear();
     let mut w = World::new();
     w.register::<CA>();
     w.register::<CB>();
